@@ -42,34 +42,58 @@ use super::{
     ParserInput,
 };
 
+/// Parse an optional minus sign in front of a numeric literal, returning `true` if it is present.
+fn parse_negation(input: ParserInput<'_>) -> (bool, ParserInput<'_>) {
+    match super::split_first_token(input) {
+        Some((Token::Operator(Operator::Minus), remainder)) => (true, remainder),
+        _ => (false, input),
+    }
+}
+
+/// Parse an optionally negated real literal.
+fn parse_signed_real<'a>(input: ParserInput<'a>) -> InternalParserResult<'a, f64> {
+    let (negative, rest) = parse_negation(input);
+    match super::split_first_token(rest) {
+        None => unexpected_eof!(rest),
+        Some((Token::Float(value), remainder)) => {
+            Ok((remainder, if negative { -*value } else { *value }))
+        }
+        Some((other_token, _)) => expected_token!(rest, other_token, "Float".to_owned()),
+    }
+}
+
+/// Parse an optionally negated integer literal. It is an error if the value does not fit in an
+/// `i64`, rather than silently wrapping around.
+fn parse_signed_integer<'a>(input: ParserInput<'a>) -> InternalParserResult<'a, i64> {
+    let (negative, rest) = parse_negation(input);
+    match super::split_first_token(rest) {
+        None => unexpected_eof!(rest),
+        Some((Token::Integer(magnitude), remainder)) => {
+            let value = if negative {
+                0i64.checked_sub_unsigned(*magnitude)
+            } else {
+                i64::try_from(*magnitude).ok()
+            };
+            match value {
+                Some(value) => Ok((remainder, value)),
+                None => Err(nom::Err::Failure(InternalParseError::from_kind(
+                    input,
+                    ParserErrorKind::UnsupportedPrecision,
+                ))),
+            }
+        }
+        Some((other_token, _)) => expected_token!(rest, other_token, "Integer".to_owned()),
+    }
+}
+
 /// Parse the operand of an arithmetic instruction, which may be a literal integer, literal real
 /// number, or memory reference.
 pub(crate) fn parse_arithmetic_operand<'a>(
     input: ParserInput<'a>,
 ) -> InternalParserResult<'a, ArithmeticOperand> {
     alt((
-        map(
-            tuple((opt(token!(Operator(o))), token!(Float(v)))),
-            |(op, v)| {
-                let sign = match op {
-                    None => 1f64,
-                    Some(Operator::Minus) => -1f64,
-                    _ => panic!("Implement this error"), // TODO
-                };
-                ArithmeticOperand::LiteralReal(sign * v)
-            },
-        ),
-        map(
-            tuple((opt(token!(Operator(o))), token!(Integer(v)))),
-            |(op, v)| {
-                let sign = match op {
-                    None => 1,
-                    Some(Operator::Minus) => -1,
-                    _ => panic!("Implement this error"), // TODO
-                };
-                ArithmeticOperand::LiteralInteger(sign * (v as i64))
-            },
-        ),
+        map(parse_signed_real, ArithmeticOperand::LiteralReal),
+        map(parse_signed_integer, ArithmeticOperand::LiteralInteger),
         map(parse_memory_reference, ArithmeticOperand::MemoryReference),
     ))(input)
 }
@@ -80,28 +104,8 @@ pub(crate) fn parse_comparison_operand<'a>(
     input: ParserInput<'a>,
 ) -> InternalParserResult<'a, ComparisonOperand> {
     alt((
-        map(
-            tuple((opt(token!(Operator(o))), token!(Float(v)))),
-            |(op, v)| {
-                let sign = match op {
-                    None => 1f64,
-                    Some(Operator::Minus) => -1f64,
-                    _ => panic!("Implement this error"), // TODO
-                };
-                ComparisonOperand::LiteralReal(sign * v)
-            },
-        ),
-        map(
-            tuple((opt(token!(Operator(o))), token!(Integer(v)))),
-            |(op, v)| {
-                let sign = match op {
-                    None => 1,
-                    Some(Operator::Minus) => -1,
-                    _ => panic!("Implement this error"), // TODO
-                };
-                ComparisonOperand::LiteralInteger(sign * (v as i64))
-            },
-        ),
+        map(parse_signed_real, ComparisonOperand::LiteralReal),
+        map(parse_signed_integer, ComparisonOperand::LiteralInteger),
         map(parse_memory_reference, ComparisonOperand::MemoryReference),
     ))(input)
 }
@@ -111,17 +115,7 @@ pub(crate) fn parse_binary_logic_operand<'a>(
     input: ParserInput<'a>,
 ) -> InternalParserResult<'a, BinaryOperand> {
     alt((
-        map(
-            tuple((opt(token!(Operator(o))), token!(Integer(v)))),
-            |(op, v)| {
-                let sign = match op {
-                    None => 1,
-                    Some(Operator::Minus) => -1,
-                    _ => panic!("Implement this error"), // TODO
-                };
-                BinaryOperand::LiteralInteger(sign * (v as i64))
-            },
-        ),
+        map(parse_signed_integer, BinaryOperand::LiteralInteger),
         map(parse_memory_reference, BinaryOperand::MemoryReference),
     ))(input)
 }
